@@ -13,7 +13,7 @@ PID = "C23"
 
 def run(tier):
     res = Result(PID)
-    N = 6 if tier == "quick" else 8
+    N = 7 if tier == "quick" else 8
     rnd = random.Random(seed())
     allf = [f for n in range(1, N + 1) for f in F.forests(n)]
     rnd.shuffle(allf)
